@@ -11,7 +11,7 @@ Accepted idiom: zero extension `M.resize(rows, wider)` guarded by `M.shape[1] < 
 import ast
 
 from rsx.access import access
-from .common import AnalysisError, Finding, RuleResult, ntext
+from .common import AnalysisError, Finding, RuleResult, ntext, walk_no_nested
 from .r04_formula_readonly import parents, is_zero_extension
 
 RULE = 'R03'
@@ -38,6 +38,31 @@ class E:
 '''
 
 
+_DECL_CACHE = {}
+
+
+def declaration_like(repo, fi):
+    """a declaration method, or a method that is only ever called (inside the package) from declaration
+    methods of the same class hierarchy -- the mechanics a declaration method was split into"""
+    if fi.name in DECLARATION_METHODS:
+        return True
+    key = (id(repo), fi.fq)
+    if key in _DECL_CACHE:
+        return _DECL_CACHE[key]
+    _DECL_CACHE[key] = False
+    callers = []
+    for f2 in repo.all_functions():
+        if f2 is fi or f2.module in ('deco', 'cpt_solver_bkp'):
+            continue
+        for n in walk_no_nested(f2.node):
+            if isinstance(n, ast.Call) and isinstance(n.func, ast.Attribute) and n.func.attr == fi.name:
+                callers.append(f2)
+                break
+    ok = bool(callers) and all(declaration_like(repo, c) for c in callers)
+    _DECL_CACHE[key] = ok
+    return ok
+
+
 def in_scope(fi):
     if fi.module == 'lp':
         if fi.cls is None:
@@ -56,7 +81,7 @@ def violations(repo, fi):
             continue
         if e.kind.startswith('self-attr-store'):
             field = e.kind.split(':')[1]
-            if fi.name == '__init__' or field in MEMO_FIELDS or fi.name in DECLARATION_METHODS:
+            if fi.name == '__init__' or field in MEMO_FIELDS or declaration_like(repo, fi):
                 continue
             out.append((e, 'writes self.%s outside __init__ / memo fields / declaration methods' % field))
             continue
@@ -69,7 +94,7 @@ def violations(repo, fi):
                 continue
             out.append((e, 'edits in place an object received through parameter `%s` (%s)'
                         % (p_orig[0][0][6:], '.'.join(p_orig[0]))))
-        elif s_orig and fi.name != '__init__' and fi.name not in DECLARATION_METHODS:
+        elif s_orig and fi.name != '__init__' and not declaration_like(repo, fi):
             if is_zero_extension(par, e):
                 accepted.append('zero-extension: ' + e.text)
                 continue
